@@ -14,3 +14,17 @@ claim("C14", "Coq theorems on read_exact over event schedules (run_s / run_fault
       "Interrupted before every read, BufReader/Cursor/chain/read_file, a hard error at every offset), comparing with the plain read and with the model.",
       "Modelled, not verified: std::io::Read::read_exact/read_to_end/Take as in Model/Sched.v; BufReader, File and byteorder are observed only.",
       "DESIGN.md section 5, C14")
+claim("C09", "Coq theorems on compute_parents / the ancestor walk + exhaustive forest correspondence run",
+      "Theorems C09_parent (parent = nearest preceding layer of smaller level, None at level 0, for every layer list on which compute_parents succeeds), "
+      "C09_parent_lt, C09_total (succeeds on every forest; fails with InvalidInput exactly on orphan layers; never panics), C09_visible (is_visible = "
+      "conjunction of the flags of the layer and all its ancestors, at any depth, loop fuel never exhausted), C09_hidden/C09_hidden_image (hidden layers "
+      "contribute nothing to frame images), for all inputs; the check re-proves them and runs every forest of up to 6 (quick) / 8 (thorough) layers with "
+      "every flag assignment, random forests up to 300 layers and chains up to depth 65535 against the implementation and the model.",
+      "Modelled, not verified: compute_parents / is_visible / frame_row models against src/layer.rs and src/file.rs (tied by the exhaustive run).",
+      "DESIGN.md section 5, C09")
+claim("C18", "Coq theorems on the raw-buffer model of util.rs (all palette insertion orders) + differential run with the utils feature",
+      "Theorems C18_extrude (dimensions and the clamp formula for every w,h >= 1 image), C18_lookup_transparent / _absent / _present / _last (for every "
+      "insertion order of the palette entries, which covers the unspecified IntMap iteration order), C18_indexed; the check re-proves them and compares "
+      "extrude_border, PaletteMapper::lookup and to_indexed_image of the real crate (release and dev) with the formula and with the model.",
+      "Modelled, not verified: image::RgbaImage as a raw row-major buffer; IntMap as a finite map with arbitrary iteration order.",
+      "DESIGN.md section 5, C18")
